@@ -658,3 +658,64 @@ V("c20f-condition-compared-with-true", "C20", {"rule": "C20f", "contains": "trut
   (INSTR, "            return self._condition(outcomes)\n", "            return self._condition(outcomes) is True\n"))
 V("c20f-preserving-bool-wrapper", "C20", "silent",
   (INSTR, "            return self._condition(outcomes)\n", "            return bool(self._condition(outcomes))\n"))
+
+# ------------------------------------------------------------------------------------------- C05
+PSTATE = "piquasso/_simulators/passive/state.py"
+PSTEPS = "piquasso/_simulators/passive/simulation_steps.py"
+PPROB = "piquasso/_simulators/passive/probabilities.py"
+# (a) feature honouring
+V("c05a-marginal-shortcut-ignores-overlap", "C05", {"rule": "C05a", "contains": "generate_marginal_samples|_particle_overlap"},
+  (PSTEPS, "        and not state.is_partially_distinguishable\n        and is_direct_marginal_sampling_cheaper(", "        and is_direct_marginal_sampling_cheaper("))
+V("c05a-table-drops-overlap", "C05", {"rule": "C05a", "contains": "fock_probabilities|get_lossy_partially_distinguishable_detection_probabilities|_particle_overlap"},
+  (PSTATE, "                particle_overlap=particle_overlap,\n", "                particle_overlap=1.0,\n"))
+V("c05a-marginal-no-pd-guard", "C05", {"rule": "C05a", "contains": "get_marginal_fock_probabilities|_particle_overlap"},
+  (PSTATE, "        if self.is_partially_distinguishable:\n            raise NotImplementedCalculation(\n                \"Marginal probability calculation is not implemented for partially \"\n                \"distinguishable states.\"\n            )\n", ""))
+V("c05a-lossy-arm-on-flag", "C05", {"rule": "C05a", "contains": "generate_lossy_samples|_particle_overlap"},
+  (PSTEPS, "    elif not state.is_partially_distinguishable:\n        samples = generate_lossy_samples(", "    elif state.is_lossy:\n        samples = generate_lossy_samples("))
+V("c05a-detection-drops-postselection", "C05", {"rule": "C05a", "contains": "_postselections"},
+  (PSTATE, "        full_occupation_number[active_modes,] = occupation_number\n        full_occupation_number[postselected_modes,] = postselected_photons\n",
+   "        full_occupation_number = self._connector.fallback_np.asarray(occupation_number)\n"),
+  (PSTATE, "        active_modes = self._connector.fallback_np.delete(\n            self._connector.fallback_np.arange(total_number_of_modes),\n            postselected_modes,\n        )\n\n        full_occupation_number = self._connector.fallback_np.zeros(\n            total_number_of_modes, dtype=int\n        )\n", ""))
+V("c05a-state-vector-ignores-postselection", "C05", {"rule": "C05a", "contains": "calculate_state_vector|_postselections"},
+  (PSTATE, "            postselect_data=(postselected_modes, postselected_photons),\n", "            postselect_data=((), ()),\n"))
+V("c05a-guard-on-field", "C05", "silent",
+  (PSTATE, "        if self.is_partially_distinguishable:\n            raise NotImplementedCalculation(\n                \"Marginal probability", "        if self._particle_overlap is not None:\n            raise NotImplementedCalculation(\n                \"Marginal probability"))
+V("c05a-rename-locals", "C05", "silent",
+  (PSTEPS, "    postselect_data = (\n        postselected_modes,\n        state._get_postselected_photons(),\n        config.max_sample_generation_trials,\n    )\n",
+   "    postselected_photons = state._get_postselected_photons()\n    postselect_data = (\n        postselected_modes,\n        postselected_photons,\n        config.max_sample_generation_trials,\n    )\n"))
+V("c05a-early-return-form", "C05", "silent",
+  (PSTATE, "        if not self.is_partially_distinguishable:\n            if self.is_lossy:\n                return get_lossy_particle_number_probability(",
+   "        indistinguishable = self._particle_overlap is None\n        if indistinguishable:\n            if self.is_lossy:\n                return get_lossy_particle_number_probability("))
+# (b) post-selection bookkeeping
+V("c05b-active-d-passed", "C05", {"rule": "C05b", "contains": "d - len(postselected_modes)"},
+  (PSTATE, "                d=self.total_number_of_modes,\n", "                d=self.d,\n"))
+V("c05b-reduced-cutoff-passed", "C05", {"rule": "C05b", "contains": "postselected_photon_sum"},
+  (PSTATE, "                cutoff=self._config.cutoff + sum(postselected_photons),\n", "                cutoff=self._config.cutoff,\n"))
+V("c05b-cutoff-not-reduced-anymore", "C05", {"rule": "C05b", "contains": "wrong direction"},
+  (PSTATE, "        self._config.cutoff -= sum(photon_counts)\n", ""))
+V("c05b-total-via-len", "C05", "silent",
+  (PSTATE, "                d=self.total_number_of_modes,\n", "                d=len(self.interferometer),\n"))
+V("c05b-sum-via-numpy", "C05", "silent",
+  (PSTATE, "                cutoff=self._config.cutoff + sum(postselected_photons),\n",
+   "                cutoff=self._config.cutoff + int(np.sum(postselected_photons)),\n"))
+# (c) conservation of the coefficient-extraction kernels
+V("c05c-detected-kernel-no-conj", "C05", {"rule": "C05c", "contains": "conservation"},
+  (PPROB, "        B_detected.append(G * np.outer(vector, np.conj(vector)))", "        B_detected.append(G * np.outer(vector, vector))"))
+V("c05c-loss-kernel-plus", "C05", {"rule": "C05c", "contains": "conservation"},
+  (PPROB, "        np.identity(input_number_of_modes, dtype=complex_dtype) - np.conj(T).T @ T", "        np.identity(input_number_of_modes, dtype=complex_dtype) + np.conj(T).T @ T"))
+V("c05c-repaired-kernel", "C05", "silent",
+  (PPROB, "        np.identity(input_number_of_modes, dtype=complex_dtype) - np.conj(T).T @ T", "        np.identity(input_number_of_modes, dtype=complex_dtype) - T.T @ np.conj(T)"))
+V("c05c-repaired-other-side", "C05", "silent",
+  (PPROB, "        B_detected.append(G * np.outer(vector, np.conj(vector)))", "        B_detected.append(G * np.outer(np.conj(vector), vector))"))
+V("c05c-unknown-construction", "C05", {"exit": 2},
+  (PPROB, "        B_detected.append(G * np.outer(vector, np.conj(vector)))", "        B_detected.append(G * np.einsum('i,j->ij', vector, np.conj(vector)))"))
+V("c05a-helper-extracted-guard-in-caller", "C05", "silent",
+  (PSTEPS, "    elif not state.is_partially_distinguishable:\n        samples = generate_lossy_samples(\n            **common_kwargs,\n            calculate_permanent_laplace=state._connector.permanent_laplace,\n        )\n",
+   "    elif not state.is_partially_distinguishable:\n        samples = _sample_lossy(state, common_kwargs)\n"),
+  (PSTEPS, "def _create_branches_after_marginal_particle_number_measurement(",
+   "def _sample_lossy(state: PassiveState, common_kwargs: dict):\n    return generate_lossy_samples(\n        **common_kwargs,\n        calculate_permanent_laplace=state._connector.permanent_laplace,\n    )\n\n\ndef _create_branches_after_marginal_particle_number_measurement("))
+V("c05a-helper-extracted-guard-lost", "C05", {"rule": "C05a", "contains": "_sample_lossy|generate_lossy_samples|_particle_overlap"},
+  (PSTEPS, "    elif not state.is_partially_distinguishable:\n        samples = generate_lossy_samples(\n            **common_kwargs,\n            calculate_permanent_laplace=state._connector.permanent_laplace,\n        )\n",
+   "    elif state.is_lossy:\n        samples = _sample_lossy(state, common_kwargs)\n"),
+  (PSTEPS, "def _create_branches_after_marginal_particle_number_measurement(",
+   "def _sample_lossy(state: PassiveState, common_kwargs: dict):\n    return generate_lossy_samples(\n        **common_kwargs,\n        calculate_permanent_laplace=state._connector.permanent_laplace,\n    )\n\n\ndef _create_branches_after_marginal_particle_number_measurement("))
